@@ -16,6 +16,7 @@ import IcontractModel.Represent
 import IcontractModel.Lemmas.ReevalMain
 import IcontractModel.Lemmas.ReprLines
 import IcontractModel.Lemmas.ReevalCounterexamples
+import IcontractModel.Lemmas.Lookup
 namespace Icontract.Ex
 
 /-- **The re-evaluator computes, node by node, exactly what Python computes.**  For every well-formed
@@ -58,5 +59,19 @@ theorem C06_lines_come_from_recorded_values (text : Nat → String) (isLookupNam
     (k : String) (x : Val) (h : (k, x) ∈ collectLines text isLookupName R [] e) :
     ∃ i, k = text i ∧ (i, x) ∈ R :=
   collectLines_from text isLookupName R e [] (fun _ _ hm => by cases hm) k x h
+
+/-- **Arguments shadow closure variables, which shadow globals**: the re-evaluator's name table, merged from the
+look-ups "first one wins", resolves every name exactly as Python's scoping does - whatever the look-ups contain
+(names occurring in several of them, with different values). -/
+theorem C06_names_resolve_as_in_python (ls : List (List (String × Val))) (n : String) :
+    lookupT (Tbl.ofLookups ls) n = (lookup (pyScope ls) n).map some := by
+  have h := lookupT_ofLookups_aux ls [] n
+  simp only [lookupT] at h
+  rw [lookup_pyScope]
+  exact h
+
+/-- non-vacuity: a name bound in all three look-ups -/
+example : lookupT (Tbl.ofLookups [[("x", .int 1)], [("x", .int 2), ("c", .int 5)], [("x", .int 3), ("c", .int 6), ("g", .int 7)]]) "c"
+    = some (some (.int 5)) := by rfl
 
 end Icontract.Ex
